@@ -83,6 +83,14 @@ CHECKS = {
     note='Trusted: clang lowering (validated per run), irsym, z3, log as uninterpreted function, normal_distribution::operator() stubbed as mean+stddev*Z (Z arbitrary real). The removal loop of the solver is covered by C08.',
     technique='symbolic execution of LLVM IR + z3 (LRA/NRA with uninterpreted log)',
     design='3/C04'),
+ 'C19': dict(
+    level='other',
+    text=('Numbering law only: the real solver::save_mesh and the integrator\'s time advance run from the LLVM IR over k iterations with symbolic dt and S. Exact reals (z3 with to_int): every feasible numbering sequence '
+          'starts at 1, never decreases, has no gap and ends within two of T/S+1, and simulated time is j*dt. IEEE doubles (cbmc on the path DAG): per path, search for a wrong first number, a decrease or a gap; counterexamples are '
+          'replayed natively with the real mesh writer. One open known finding (gap when S is within a few ulp of dt). File contents, CSV shape and statistics are not covered.'),
+    note='Trusted: clang lowering (validated), irsym, z3, cbmc --floatbv. Bounds: k=6 (exact) / 4 (IEEE) iterations quick, 12 / 6 thorough; 0 < dt <= S, 1e-9 <= dt, S <= 1e6 for IEEE. The reading of "K within one of T/S+1" is stated in the evidence assumptions.',
+    technique='symbolic execution of LLVM IR; z3 mixed integer/real arithmetic; bit-precise path DAG -> C -> cbmc; native replay',
+    design='3/C19'),
  'C20': dict(
     level='other',
     text=('Bounded symbolic checking of the grid index arithmetic from the LLVM IR of uspg_3d/uspg_4d: (O1) the IEEE-754 expression DAG of update_dimensions + get_3d_voxel_index is printed as C per path and cbmc '
